@@ -160,7 +160,7 @@ int main(int argc, char **argv)
 	auto run_text = [&](const std::string &body) {
 		Script sc = from_text(body);
 		Report r = run_any(sc);
-		if (!r.ok) fprintf(stderr, "%s", r.trace.c_str());
+		if (!r.ok || getenv("VERIF_TRACE")) fprintf(stderr, "%s", r.trace.c_str());
 		if (!r.ok && r.prop != args.prop) {
 			printf("note: conversation fails for %s (%s), not for %s\n", r.prop.c_str(), r.sig.c_str(), args.prop.c_str());
 			return vf::Result::pass();
